@@ -56,9 +56,9 @@ def plans(tier):
     out.append({"name": "bfs-memfd-2MiB", "variant": "memfd", "mode": "thread",
                 "gen": dict(agents=(0,), maxch=0, maxreg=1, maxslots=1, maxops=4, regionlens=(10, 11)), "filter": nontrivial})
     for variant in ("os", "memfd", "inprocess"):
-        out.append({"name": "bfs-%s-3regions" % variant, "variant": variant, "mode": "thread",
-                    "gen": dict(agents=(0,), maxch=0, maxreg=3, maxslots=3, maxops=4, regionlens=(0, 2, 4)),
-                    "filter": several_regions, "limit": 20000})
+        out.append({"name": "bfs-%s-2regions" % variant, "variant": variant, "mode": "thread",
+                    "gen": dict(agents=(0,), maxch=0, maxreg=2, maxslots=2, maxops=3, regionlens=(0, 1, 2, 4, 9)),
+                    "filter": several_regions})
     out.append({"name": "bfs-os-d4", "variant": "os", "mode": "thread",
                 "gen": dict(agents=(0,), maxch=0, maxreg=2, maxslots=1, maxops=4, regionlens=(0, 2, 4)),
                 "filter": nontrivial, "limit": 30000})
